@@ -1398,6 +1398,24 @@ def check_C18(ck):
         v2.append((0, rng.randrange(Q)))       # purely imaginary
         t = rng.randrange(1, Q)
         v2.append(((-t * t) % Q, 0))           # alpha = -1 branch candidates: a in Fq with a = -t^2
+    # every comparison entry point (Ord::cmp, partial_cmp, < <= > >=, max, min) on pairs that tie in the high part:
+    # equal top limbs with lower limbs ordered both ways (Fq, Fr), equal u-coefficients (Fq2), equal elements
+    cmp_pairs = []
+    for (f, p) in (("fq", Q), ("fr", R)):
+        top = (p >> (p.bit_length() - 40)) << (p.bit_length() - 40)
+        vs = [1, 1 << 64, (1 << 64) + 1, (1 << 128) | 1, (1 << 128), top >> 1, (top >> 1) | (1 << 64), (top >> 1) | 1, p - 1, p - (1 << 64), rng.randrange(p)]
+        for a in vs:
+            for b in (vs if thorough else rng.sample(vs, 5) + [a]):
+                cmp_pairs.append((f, "%x" % a, "%x" % b, (a > b) - (a < b), "%x" % max(a, b), "%x" % min(a, b)))
+    v2 = [(1, 1), (2, 1), (1 << 64, 1), (1, 2), (Q - 1, 1), (0, 0), (0, 1), (1, 0), (Q - 1, 0), F2.rand(rng)]
+    for a in v2:
+        for b in (v2 if thorough else rng.sample(v2, 5) + [a]):
+            c_ = (F2.lt(b, a)) - (F2.lt(a, b))
+            cmp_pairs.append(("fq2", _f2s(a), _f2s(b), c_, _f2s(a if c_ == 1 else b), _f2s(b if c_ == 1 else a)))
+    for (f, a, b, c_, mx, mn) in cmp_pairs:
+        tb = lambda v: "true" if v else "false"
+        cases.append(("%s/compare-all-entry-points" % f, "%s cmpall %s %s" % (f, a, b)))
+        kinds.append((f, Q, "%d %d %s %s %s %s %s %s" % (c_, c_, tb(c_ == -1), tb(c_ != 1), tb(c_ == 1), tb(c_ != -1), mx, mn), "exact-s"))
     # negate_if on zero and non-zero elements, both signs (the result must be the canonical representation: a non-canonical
     # zero is printed as NONCANONICAL-RAW by the executor); Sgn0Result xor table
     for a in [0, 1, Q - 1, 2, rng.randrange(Q)]:
